@@ -209,6 +209,11 @@ func genC10(nonfin bool) func(r *core.Rng) any {
 				c.Ops = append(c.Ops, g.shapeOp(core.PickS(r, []string{"Join", "Append"})))
 			default:
 				s := core.PickS(r, []string{"M0 0L1 1", "L5 5z", "M1 2Q3 4 5 6", "C1 1 2 2 3 0z", "A5 5 0 0 1 10 0", "M0 0H5V5h-5z", "m1 1l2 0 0 2z", "M0 0T1 1S2 2 3 3", "M0 0a1 1 0 111 1"})
+				if r.Chance(0.4) {
+					// valid path data of every command kind, cut off at an arbitrary byte
+					full := genC11ParseValid(r).(*c11Case).S
+					s = full[:r.Intn(len(full)+1)]
+				}
 				c.Ops = append(c.Ops, c10Op{Op: "Parse", S: s})
 			}
 		}
